@@ -106,7 +106,12 @@ def layout_checks(text, lay=None, counts=None, cycles=True, walk=None):
             k = commentsx.CLASS[lay[i]]
             if a is not None and a[0] in ('leading', 'trailing') and a[1] is not None and 0 <= a[1] < len(lay) \
                     and lay[a[1]] in commentsx.CLASS and commentsx.CLASS[lay[a[1]]] != k:
-                sig = 'rule:cross-indent-leading'
+                # which boundary was crossed: `in-body` = the comment line belongs to the indented body of a directive above it
+                # (a dedent mark separates that body from what follows), `ends`/`continues` = whether that body goes on below
+                o = a[1]
+                inbody = commentsx._enclosing_top(lay, i) is not None if lay[i] == 'I' else commentsx._enclosing_top(lay, i - 1) is not None and i > 0
+                cont = commentsx._in_body_continues(lay, i)
+                sig = f'rule:cross-indent-leading:{a[0]}:{lay[i]}{"<" if o < i else ">"}{lay[o]}:{"in-body" if inbody else "no-body"}:{"continues" if cont else "ends"}'
             elif lay[i] == 'I' and e[0] == 'trailing' and a is not None and a[0] == 'item' and lay[e[1]] == 'M' and e[1] == i - 1 \
                     and a[1] is not None and a[1] >= 0 and lay[a[1]] == 'T' and commentsx._enclosing_top(lay, e[1]) == a[1] \
                     and fields.get(i) == '_postings' and not _has_posting(lay, a[1]):
